@@ -312,6 +312,57 @@ inline json reader_dump(const std::string& bytes) {
 }
 
 
+// The same, one read_block() at a time (so that several readers can be operated alternately): open(), then step() until
+// it returns false; `out` is then exactly what reader_dump() returns for the same bytes.
+struct ReaderSession {
+    std::istringstream is;
+    std::unique_ptr<CdnsReader> reader;
+    json out = json::object();
+    json blocks = json::array();
+    bool done = false;
+    explicit ReaderSession(const std::string& bytes) : is(bytes, std::ios::binary) {}
+    void fail(const char* kind, const std::exception* e) {
+        out["fin"] = kind;
+        if (e && std::string(kind) == "err") out["msg"] = std::string(e->what()).substr(0, 200);
+        out["blocks"] = blocks; done = true;
+    }
+    void open() {
+        try { reader.reset(new CdnsReader(is)); out["preamble"] = preamble_out(reader->m_file_preamble); }
+        catch (CdnsDecoderEnd& e) { fail("end", &e); }
+        catch (std::exception& e) { fail("err", &e); }
+    }
+    bool step() {
+        if (done) return false;
+        try {
+            bool eof = false;
+            CdnsBlockRead blk = reader->read_block(eof);
+            if (eof) {
+                out["fin"] = "eof";
+                json after = json::array();
+                for (int k = 0; k < 2; k++) { bool e2 = false; CdnsBlockRead b2 = reader->read_block(e2); after.push_back(json::array({e2, b2.get_item_count()})); }
+                out["after"] = after; out["blocks"] = blocks; done = true;
+                return false;
+            }
+            json b = json::object();
+            if (blk.m_block_preamble.block_parameters_index) b["bpi"] = vh::nat(*blk.m_block_preamble.block_parameters_index);
+            b["earliest"] = ts_out(blk.m_block_preamble.earliest_time);
+            if (blk.m_block_statistics) b["stats"] = stats_out(*blk.m_block_statistics);
+            json qrs = json::array(), aecs = json::array(), mms = json::array();
+            bool end = false;
+            while (true) { GenericQueryResponse g = blk.read_generic_qr(end); if (end) break; qrs.push_back(qr_out(g)); }
+            while (true) { GenericAddressEventCount g = blk.read_generic_aec(end); if (end) break; aecs.push_back(aec_out(g)); }
+            while (true) { GenericMalformedMessage g = blk.read_generic_mm(end); if (end) break; mms.push_back(mm_out(g)); }
+            b["qrs"] = qrs; b["aecs"] = aecs; b["mms"] = mms;
+            blocks.push_back(b);
+            return true;
+        }
+        catch (CdnsDecoderEnd& e) { fail("end", &e); }
+        catch (std::exception& e) { fail("err", &e); }
+        return false;
+    }
+};
+
+
 // ---- raw blocks (built directly through CdnsBlock::add_*; C02) -------------------------------
 #define VR_SIG_FIELDS(X) \
     X(server_address_index, index_t) X(server_port, uint16_t) X(qr_transport_flags, QueryResponseTransportFlagsMask) \
